@@ -401,6 +401,8 @@ pub struct Runner {
     pub groupings: std::collections::BTreeSet<String>,
     /// the current FST came out of the shipped builder (set by `build`)
     pub cur_built: bool,
+    /// the real run does not have the structure the MODEL assumes (not by itself a failure of a property)
+    pub mismatches: Vec<String>,
 }
 
 
@@ -530,6 +532,7 @@ impl Runner {
             notes: vec![],
             groupings: Default::default(),
             cur_built: false,
+            mismatches: vec![],
         }
     }
 
@@ -1184,6 +1187,9 @@ pub fn run_stdin(oracle_path: Option<&str>) {
         }
         if !r.groupings.is_empty() {
             writeln!(f, "NOTE merge: {} distinct union groupings observed in the traces of the real runs", r.groupings.len()).unwrap();
+        }
+        for x in &r.mismatches {
+            writeln!(f, "MISMATCH {}", x).unwrap();
         }
         for x in &r.fails {
             writeln!(f, "FAIL {}", x).unwrap();
